@@ -442,7 +442,7 @@ func builtinStringSubstr(call FunctionCall) Value {
 		return stringValue("")
 	}
 
-	if start+length >= size {
+	if length >= size-start {
 		// Cap length to be to the end of the string
 		// start = 3, length = 5, size = 4 [0, 1, 2, 3]
 		// 4 - 3 = 1
